@@ -404,9 +404,10 @@ type caller struct {
 	panicked string
 
 	// explorer's notes
-	cancelled bool
-	timedOut  bool
-	tainted   bool // reported as wrongly blocked earlier in this execution
+	cancelled        bool
+	timedOut         bool
+	tainted          bool // reported as wrongly blocked earlier in this execution
+	pendingAfterDrop bool // left pending by a failure of its stream (observation, not a violation)
 }
 
 func (c *caller) payload() string { return fmt.Sprintf("c%d", c.idx) }
@@ -456,6 +457,7 @@ type world struct {
 	closeCalls   int32
 	dropped      bool // some stream was dropped by the server
 	droppedKinds map[string]bool
+	notes        []viol // observations made by check() during the current step
 }
 
 // maxExecWall: an execution normally takes 1-3 ms. The only wall-clock assumption of the check is
